@@ -337,11 +337,49 @@ def _asyncroot_rule(chk, prog):
     chk.floor(rule, 2, n)
 
 
+def _drain_rule(chk, prog):
+    """Completions from helper threads reach the event loop through the self-pipe, which is registered edge-triggered:
+    epoll reports it once when data arrives, not again while data remains.  The handler therefore has to keep reading
+    until the read fails (EAGAIN); a handler that takes a fixed number of records leaves the rest in the pipe, their
+    fibers are never resumed, the pending-work counter never reaches zero and the loop sleeps forever."""
+    rule = "C20-DRAIN"
+    chk.rule(rule, "the self-pipe handler reads again after every record it handled (drains until the read fails)")
+    tu = prog.tus["ev.c"]
+    fn = tu.funcs.get("janet_ev_handle_selfpipe")
+    if fn is None:
+        raise AnalysisBroken("janet_ev_handle_selfpipe not found")
+    chk.analysed(fn)
+    reads = [c for c in fn.calls("read")]
+    handled = [x for x in fn.nodes if x.k == "call" and x.callee is None] + [c for c in fn.calls("janet_ev_dec_refcount")]
+    if not reads or not handled:
+        raise AnalysisBroken("janet_ev_handle_selfpipe: read / callback dispatch not found")
+
+    def block_of(x):
+        for b in fn.blocks.values():
+            if any(e is x or any(y is x for y in e.walk()) for e in b.elems):
+                return b.id
+        return None
+    rb = block_of(reads[0])
+    chk.instance(rule)
+    ok = True
+    for h in handled:
+        hb = block_of(h)
+        if hb is None or rb is None or rb not in flow.reachable_from(fn, hb) or (hb == rb):
+            ok = False
+    if ok:
+        chk.ok(rule, "janet_ev_handle_selfpipe: the read is reachable again from every record it dispatches")
+    else:
+        chk.violation(rule, "ev.c", fn.name, "drain", reads[0].loc,
+                      "after handling a record janet_ev_handle_selfpipe cannot come back to the read: records still in the "
+                      "(edge-triggered) self-pipe are never picked up and the fibers waiting for them stay suspended")
+
+
 def run(chk):
     prog = Program.load("default")
     _pin_rule(chk, prog)
     _pendroot_rule(chk, prog)
     _asyncroot_rule(chk, prog)
+    _drain_rule(chk, prog)
     from rules import c20_fd
     c20_fd.run(chk, prog)
     _pending_rule(chk, prog)
